@@ -97,6 +97,7 @@ def make_closures(
     check_finite: bool = True,
     gate: Optional[Callable[[str], None]] = None,
     jac_style: str = "fresh",
+    fun_style: str = "scalar",
 ):
     """fun/jac closures over the harness's objective that log every call.
     fault = {"kind": "fun"|"jac", "index": j, "exc": exception instance} raises at the j-th call (0-based)."""
@@ -117,6 +118,12 @@ def make_closures(
         tr.events.append(("f", i))
         if check_finite and not np.all(np.isfinite(np.real(v))):
             raise Discard("harness objective non-finite")
+        # a value handed back as a one-element or zero-dimensional array (x @ A @ x + c[None], np.sum(..., keepdims=True), ...)
+        # is what many user objectives return; the package documents that it is converted to a scalar
+        if fun_style == "array1" and not np.iscomplexobj(v):
+            return np.array([v], dtype=float)
+        if fun_style == "array0" and not np.iscomplexobj(v):
+            return np.array(v, dtype=float)
         return v
 
     def jac(x, *args):
@@ -171,11 +178,12 @@ def run_min(
     gate=None,
     trace: Optional[Trace] = None,
     jac_style: str = "fresh",
+    fun_style: str = "scalar",
 ) -> Trace:
     import lbfgsb
 
     tr = trace if trace is not None else Trace()
-    fun, jac, holder = make_closures(prob, tr, fault=fault, obj=obj, gate=gate, jac_style=jac_style)
+    fun, jac, holder = make_closures(prob, tr, fault=fault, obj=obj, gate=gate, jac_style=jac_style, fun_style=fun_style)
     tr.holder = holder
     kw: Dict[str, Any] = {}
     kw["x0"] = np.array(prob.x0, copy=True) if x0 is None else x0
